@@ -14,7 +14,11 @@ PROP = dict(
                     "the request the model says is being answered.  (c) 30k / 300k histories end to end: a peer writes COBS framed requests "
                     "with ids into a socketpair, mpt_stream_input dispatches them to a handler that replies 0, 1 or 2 times, the peer decodes "
                     "every frame coming back (reply bit, id of an outstanding request, at most one per request, exactly one at the end).  "
-                    "Exploration, not proof."),
+                    "(d) 20k / 200k histories on struct connection over a stream and over a datagram socketpair (mpt_connection_assign/_await/_push/_dispatch, "
+                    "mpt_outdata_recv/_reply): peer requests answered 0, 1, 2 times or deferred, own awaited requests answered by the peer in and out of "
+                    "order.  (e) 20k / 200k histories of mpt_stream_sync with 1..6 pending requests per round, all answered in PRNG order, CPU/wall "
+                    "alarms as progress bound.  (f) 30k / 300k histories of mpt_stream_reply on a fixed-size memory stream (replies that do not fit, "
+                    "fragmented messages, unfinished own message, retry).  Exploration, not proof."),
         level_note=("trusts the request model in harness/c12_reply.c and the fits-predicate id < 2^(8w-1) in harness/c12_id.c, gcc ASan/UBSan; "
                     "the context object is located with __asan_locate_address, its layout is not assumed"),
         legs=[dict(name="c12_id", memcheck=1500, src=["c12_id.c"], libs=["mptcore"], batch=4096,
@@ -39,14 +43,35 @@ PROP = dict(
                            "monitor:reply-id-compared": 100000, "monitor:reply-body-compared": 50000,
                            "monitor:further-reply-refused": 30000, "request:without-id": 10000,
                            "peer:id-only-requests": 20000, "request:id-only-dispatched": 20000}),
-              dict(name="c12_sync", src=["c12_sync.c"], libs=["mptio", "mptcore"], batch=256, timeout=200,
-                   floors={}),
+              dict(name="c12_conn", src=["c12_conn.c"], libs=["mptio", "mptcore"], batch=512,
+                   floors={"mpt_connection_assign(stream)": 8000, "mpt_connection_assign(datagram)": 8000,
+                           "mpt_connection_dispatch": 200000, "mpt_outdata_recv": 40000, "mpt_connection_await": 30000,
+                           "mpt_connection_push": 30000, "conn:request-dispatched": 50000, "peer:own-requests-received": 30000,
+                           "monitor:own-reply-compared": 30000, "monitor:own-reply-accounted": 30000,
+                           "monitor:reply-id-compared": 40000, "monitor:reply-body-compared": 20000,
+                           "monitor:further-reply-refused": 20000, "peer:default-replies": 15000,
+                           "reply_context.defer": 15000, "reply_context_detached.reply": 5000,
+                           "reply_context_detached.reply(NULL)": 8000, "reply:fragmented-message": 8000,
+                           "request:without-id": 5000}),
+              dict(name="c12_sreply", src=["c12_sreply.c"], libs=["mptio", "mptcore"], batch=512,
+                   floors={"mpt_stream_reply": 100000, "reply:accepted": 50000, "reply:refused": 40000,
+                           "reply:may-not-fit": 30000, "reply:during-unfinished-message": 20000,
+                           "reply:fragmented-message": 50000, "reply:empty-first-fragment": 10000,
+                           "mpt_stream_reply(retry)": 1500, "monitor:retry-accepted": 1500,
+                           "monitor:frame-compared": 80000, "monitor:sequence-complete": 25000}),
+              dict(name="c12_sync", src=["c12_sync.c"], libs=["mptio", "mptcore"], batch=512, timeout=200,
+                   floors={"mpt_stream_sync": 40000, "sync:two-or-more-pending": 30000, "peer:replies-sent": 150000,
+                           "monitor:reply-body-compared": 150000, "monitor:reply-delivery-accounted": 150000,
+                           "monitor:request-id-compared": 150000, "history:answered-out-of-order": 10000,
+                           "history:reply-id-reused": 10000}),
               ],
         rule=("c12_id: case = one boundary (id, width) pair or one random id run through widths 0..9 together with nine random headers; "
               "non-trivial = non-zero id accepted by at least one width > 0 (or, for boundary pairs, a refusal within one bit of the width's "
               "limit).  c12_reply: case = one history of 4..24 (thorough 40) operations on one reply context followed by release of everything "
               "still held in PRNG order; non-trivial = at least two requests armed and at least two sends reached the transport; "
               "c12_stream: case = 1..4 bursts of 1..4 framed requests (payload 0..12 bytes, half of them 0, 1 or 2 bytes; 0 = request consisting of the id only) on one stream input; non-trivial = at least two requests and one reply; "
+              "c12_conn: 1..5 bursts of 1..4 peer or own requests on one connection (even cases stream, odd cases datagram), non-trivial = at least two requests; "
+              "c12_sync: 1..5 rounds of 1..6 requests, non-trivial = a round with at least two pending requests; c12_sreply: 3..14 operations, non-trivial = at least two accepted replies; "
               "distinct = 64-bit hash of id / operation list with arguments, message bytes and transport verdicts"),
         exhaustive_note="boundary ids {0,1,0x7f,0x80,2^k-1,2^k,2^k+1 (k=0..63),2^64-1} x widths 0..9",
         assumptions=SAN_BASE + [
@@ -55,6 +80,12 @@ PROP = dict(
             "a deferred handle is consumed by reply(msg) >= 0 and by reply(NULL) whatever it returns, and stays valid after reply(msg) < 0 (reply_deferrable.c)",
             "stream leg: requests the stream layer never hands to the handler are counted, not judged (bounded progress of the stream is property C02); "
             "the input is driven with next(POLLIN|POLLOUT) because next(POLLOUT) alone never flushes",
+            "connection legs use the connection as the library's own callers do: id width written to con.out._idlen (examples/io/mclient.c), input step = "
+            "mpt_stream_poll on the connection's stream / mpt_outdata_recv on its socket followed by mpt_connection_dispatch (output_remote.c); "
+            "peers are well behaved (every reply answers an outstanding request, once)",
+            "mpt_stream_sync is called with timeout -1 on a blocking descriptor after the peer has written the replies to all pending requests; "
+            "2 s of CPU time or 60 s of wall time inside the call count as missing progress",
+            "a reply whose COBS size plus 4 bytes fits the free output space must be accepted by mpt_stream_reply; finished bytes of the output queue are final",
             "a request armed on the context when its reference is released with the transport attached must get one default (NULL message) send, also while deferred handles are outstanding",
         ],
     )
